@@ -12,6 +12,7 @@ import (
 	"os"
 	"sort"
 	"strconv"
+	"strings"
 	"time"
 
 	"verif/harness/internal/checks"
@@ -96,6 +97,10 @@ func main() {
 			os.Exit(2)
 		}
 		msg := chk.Replay(rf.Witness)
+		if strings.HasPrefix(msg, "NOT-REPLAYABLE:") {
+			fmt.Fprintln(os.Stderr, msg)
+			os.Exit(2)
+		}
 		if msg == "" {
 			fmt.Printf("replay of %s passes (no violation)\n", os.Args[2])
 			return
